@@ -59,3 +59,10 @@ def load(arch):
         sem = ArchSemantics(mm, path_to_yaml=isa_path(mm.get_ISA().lower()))
         _cache[arch] = (mm, sem)
     return _cache[arch]
+
+
+def load_fresh(arch):
+    """new MachineModel / ArchSemantics objects on every call (what each command line run builds)"""
+    from osaca.semantics import MachineModel, ArchSemantics
+    mm = MachineModel(path_to_yaml=yaml_path(arch))
+    return mm, ArchSemantics(mm, path_to_yaml=isa_path(mm.get_ISA().lower()))
